@@ -31,7 +31,7 @@ Stay == UNCHANGED <<now, pc>>
 
 MPublish(id) == APutBegin(T, id, Info(id)) /\ Stay
 MAck(id)     == Has(minfo, <<T, id>>) /\ ~minfo[<<T, id>>].acked /\ APutAck(T, {id}) /\ Stay
-MTake(id)    == ATake(T, id, {c \in Chans : chan[c].st = "live"}) /\ Stay
+MTake(id)    == ATake(T, id, {c \in Chans : chan[c].st = "live"}, 0) /\ Stay
 MCopy(c, id) == Cu(c, id).loc = "none" /\ ACPutBegin(c, id, 0, now) /\ Stay
 MCopied      == Has(copying, T) /\ ACopied(T, copying[T].id) /\ Stay
 
